@@ -185,6 +185,9 @@ func emitNIA1(stream string, ik [16]byte, count uint32, bearer byte, dir uint32,
 	panicked, pv := hk.Catch(func() { mac, err = security.NIA1(ik, count, bearer, dir, msg, length) })
 	in := map[string]interface{}{"op": "NIA1", "key": hk.Hex(ik[:]), "count": count, "bearer": bearer, "direction": dir,
 		"msg": hk.Hex(m0), "length": length}
+	if hk.BeyondLen(msg, func(w []byte) { _, _ = security.NIA1(ik, count, bearer, dir, w, length) }) {
+		fail("security.NIA1", "writes-beyond-message", in, "octets of the caller's array beyond len(msg) were overwritten")
+	}
 	inDomain := bearer < 32 && dir < 2 && length <= 8*uint64(len(msg))
 	obs := "OPanic"
 	switch {
@@ -240,6 +243,9 @@ func emitEnc(stream string, ck [16]byte, count uint32, bearer, dir uint8, payloa
 	in := map[string]interface{}{"op": "NASEncrypt", "alg": 1, "key": hk.Hex(ck[:]), "count": count, "bearer": bearer,
 		"direction": dir, "payload": hk.Hex(p0)}
 	buf := hk.Exact(payload)
+	if hk.BeyondLen(payload, func(w []byte) { _ = security.NASEncrypt(security.AlgCiphering128NEA1, ck, count, bearer, dir, w) }) {
+		fail("security.NASEncrypt", "writes-beyond-payload", in, "octets of the caller's array beyond len(payload) were overwritten")
+	}
 	var err error
 	panicked, pv := hk.Catch(func() {
 		err = security.NASEncrypt(security.AlgCiphering128NEA1, ck, count, bearer, dir, buf)
@@ -319,6 +325,11 @@ func emitMac(stream string, ik [16]byte, count uint32, bearer, dir uint8, msg []
 	in := map[string]interface{}{"op": "NASMacCalculate", "alg": 1, "key": hk.Hex(ik[:]), "count": count, "bearer": bearer,
 		"direction": dir, "msg": hk.Hex(m0)}
 	buf := hk.Exact(msg)
+	if hk.BeyondLen(msg, func(w []byte) {
+		_, _ = security.NASMacCalculate(security.AlgIntegrity128NIA1, ik, count, bearer, dir, w)
+	}) {
+		fail("security.NASMacCalculate", "writes-beyond-message", in, "octets of the caller's array beyond len(msg) were overwritten")
+	}
 	var mac []byte
 	var err error
 	panicked, pv := hk.Catch(func() {
@@ -642,6 +653,30 @@ func run(r *hk.Run) {
 			emitNIA1("random", key, count, bearer, uint32(dir), bitMsg(bits), uint64(bits))
 		default:
 			emitKS("random", keyWords(key), keyWords(rndKey()), r.Rng.Intn(8))
+		}
+	}
+
+	// (3b) block-structured messages: 4-, 8- and 16-octet blocks that are zero, all-ones, a single bit, or a
+	// repeat of the block before (EIA1 evaluates a polynomial over 64-bit blocks; a zero block must still be
+	// multiplied in, equal blocks must not cancel), aligned and shifted by a few octets
+	nb := r.N(240, 4000)
+	for i := 0; i < nb; i++ {
+		key := rndKey()
+		count := pickCount(r.Rng.Intn(10))
+		bearer := uint8(r.Rng.Intn(32))
+		dir := uint8(r.Rng.Intn(2))
+		bs := []int{4, 8, 8, 8, 16}[r.Rng.Intn(5)]
+		msg := hk.BlockMsg(r.Rng, bs, 1+r.Rng.Intn(7), r.Rng.Intn(bs+1))
+		if r.Rng.Intn(4) == 0 {
+			msg = append(r.Rng.Bytes(1+r.Rng.Intn(3)), msg...)
+		}
+		switch i % 4 {
+		case 0:
+			emitNIA1("block-structured", key, count, bearer, uint32(dir), msg, uint64(8*len(msg)))
+		case 1, 2:
+			emitMac("block-structured", key, count, bearer, dir, msg)
+		default:
+			emitEnc("block-structured", key, count, bearer, dir, msg)
 		}
 	}
 
